@@ -370,27 +370,74 @@ def run(P, rep, tier):
                 inread |= {x[1] for x in subexprs(e) if x[0] == 'm'}
     from engine.own import alloc_sites as _alloc_sites
     nae = 0
-    for g in [h for h in P.reachable_from([api]) if h.lib == 'Encoder' and not h.nocfg]:
+    apichain = [h for h in P.reachable_from([api]) if h.lib == 'Encoder' and not h.nocfg]
+
+    def _own_locals(g, own_params):
+        """locals of g that designate objects created by this call of the API: struct-typed locals, locals receiving an
+        allocation, parameters to which every call site in the API chain passes such an object, and locals pointing at them"""
+        own = {d['n'] for d in g.events(('decl',)) if '*' not in d.get('t', '')}
+        own |= {strip(t)[1] for ev, lf, kind, lvl, mac, t in _alloc_sites(g) if strip(t)[0] == 'v'}
+        own |= {g.params[i][0] for i in own_params if i < len(g.params)}
+        for _ in range(3):
+            for d in g.events(('decl', 'st')):
+                e = d.get('e')
+                if e is None:
+                    continue
+                if d['k'] == 'decl':
+                    n, rhs = d['n'], strip(e)
+                elif e[0] == 'a' and e[1] == '=' and strip(e[2])[0] == 'v':
+                    n, rhs = strip(e[2])[1], strip(e[3])
+                else:
+                    continue
+                while rhs is not None and rhs[0] == 'k':
+                    rhs = strip(rhs[-1])
+                if rhs is None:
+                    continue
+                if rhs[0] == 'c' and callee_name(rhs) in ('malloc', 'calloc'):
+                    own.add(n)
+                elif rhs[0] == 'u' and rhs[1] == '&':
+                    r0 = root_of(strip(rhs[2]))
+                    if r0 is not None and r0[2] == 'l' and r0[1] in own:
+                        own.add(n)
+                elif rhs[0] == 'v' and rhs[2] == 'l' and rhs[1] in own:
+                    own.add(n)
+        return own
+
+    def _is_own(a, own):
+        a = strip(a)
+        while a is not None and a[0] == 'k':
+            a = strip(a[-1])
+        if a is None:
+            return False
+        if a[0] == 'u' and a[1] == '&':
+            a = strip(a[2])
+        r0 = root_of(a) if a is not None else None
+        return r0 is not None and r0[2] == 'l' and r0[1] in own and not any(x[0] == 'm' and x[2] for x in subexprs(a))
+    ownp = {g.name: set() for g in apichain}
+    ownl = {}
+    for _ in range(4):
+        for g in apichain:
+            ownl[g.name] = _own_locals(g, ownp[g.name])
+        passed = {}
+        for g in apichain:
+            if g in inband:
+                continue
+            for cv in g.events(('call',)):
+                for h in P.call_targets(g, cv):
+                    if h in inband or h not in apichain:
+                        continue
+                    for ai, a in enumerate(cv['e'][2] or ()):
+                        passed.setdefault((h.name, ai), []).append(_is_own(a, ownl[g.name]))
+        newp = {g.name: {ai for (hn, ai), v in passed.items() if hn == g.name and all(v)} for g in apichain}
+        if newp == ownp:
+            break
+        ownp = newp
+    for g in apichain:
         if g in inband:
             nae += 1
             rep.ob('C02.APIEFFECT', 'shared-with-in-band:%s' % g.name, True, g.loc(), 'also run by the packetization path: same effect as an in-band header write')
             continue
-        ownloc = {d['n'] for d in g.events(('decl',)) if '*' not in d.get('t', '')}
-        ownloc |= {strip(t)[1] for ev, lf, kind, lvl, mac, t in _alloc_sites(g) if strip(t)[0] == 'v'}
-        for d in g.events(('decl', 'st')):
-            e = d.get('e')
-            if e is None:
-                continue
-            if d['k'] == 'decl':
-                n, rhs = d['n'], strip(e)
-            elif e[0] == 'a' and e[1] == '=' and strip(e[2])[0] == 'v':
-                n, rhs = strip(e[2])[1], strip(e[3])
-            else:
-                continue
-            while rhs is not None and rhs[0] == 'k':
-                rhs = strip(rhs[-1])
-            if rhs is not None and rhs[0] == 'c' and callee_name(rhs) in ('malloc', 'calloc'):
-                ownloc.add(n)
+        ownloc = ownl[g.name]
         for ev in g.events(('st',)):
             e = ev['e']
             if e[0] not in ('a', 'u'):
@@ -400,9 +447,7 @@ def run(P, rep, tier):
             if not lf:
                 continue
             r = root_of(t)
-            mine = r is not None and r[2] == 'l' and r[1] in ownloc
-            # ((OutputBitstreamUnit *)bitstream.output_bitstream_ptr)->...: reached through a member of an own object that was
-            # pointed at another own object in this function
+            mine = r is not None and r[2] in ('l',) + tuple('p%d' % k for k in range(12)) and r[1] in ownloc
             nae += 1
             ok = mine or lf not in inread
             rep.ob('C02.APIEFFECT', '%s/%s' % (g.name, lf), ok, g.loc(ev),
